@@ -170,7 +170,14 @@ let () = register "table" (fun args ->
   let w = Writer.write_table deflate cfg mn mx refs logs in
   let parts = match w with
     | Result.Ok (empty, data) ->
-      if empty then ["empty:" ^ hex_of_bytes data]
+      if empty then begin
+        let first = "empty:" ^ hex_of_bytes data in
+        let hs = if cfg.Writer.c_sha256 then 32 else 20 in
+        match Reader.rd_open data with
+        | Result.Ok rd ->
+          first :: "ok" :: L.map (model_query rd) ["sr:"; "sl::18446744073709551615"; "rf:" ^ S.concat "" (L.init hs (fun _ -> "00"))]
+        | r -> [first; show_res (fun _ -> "ok") r]
+      end
       else begin
         let first = "ok:" ^ hex_of_bytes data in
         match Reader.rd_open data with
@@ -206,6 +213,8 @@ let () = register "table" (fun args ->
            if j <> "ok" then "bad:" ^ j else
            if cfg.Writer.c_unaligned then "ok" else
            (match spec_padded_ok wbytes with "ok" -> "ok" | e -> "bad:" ^ e))
+    | w :: rest when S.length w >= 6 && S.sub w 0 6 = "empty:" ->
+      if rest = ["ok"; ""; ""; ""] then "ok" else "bad:empty table does not answer every query with nothing (" ^ S.concat "|" rest ^ ")"
     | w :: _ when w = "panic" -> "bad:writer-panic"
     | _ :: o :: _ when o = "panic" -> "bad:open-panic"
     | _ -> "-" in
